@@ -85,6 +85,21 @@ def tveRunWOn (A : List Nat) (g0 : List TNode) : List Nat × Rat :=
 
 def tveRunW (A : List Nat) (rules : List Rule) : List Nat × Rat := tveRunWOn A (tInit A rules [])
 
+/-! ## the elimination loop under an arbitrary variable-selection heuristic -/
+
+/-- `while (graph.variableSize()) removeFactor(V, graph, pick(...))` for ANY `pick` (the library's is `bestVar`) -/
+def tveLoopBy (pick : List Nat → List TNode → Nat) (A : List Nat) (n : Nat) : Nat → List Nat → TState → TState
+  | 0, _, st => st
+  | _, [], st => st
+  | fuel+1, active, st =>
+    let v := pick active st.graph
+    tveLoopBy pick A n fuel (active.filter (· != v)) (removeVar A n v st)
+
+def tveRunBy (pick : List Nat → List TNode → Nat) (A : List Nat) (rules : List Rule) : List Nat × Rat :=
+  let n := A.length
+  let st := tveLoopBy pick A n n (List.range n) ⟨tInit A rules [], []⟩
+  tMakeResult n st.finals
+
 /-! ## QFunction (= FactoredVector: a list of bases `tag`, dense `values`) -/
 
 structure Basis where
